@@ -143,6 +143,47 @@ def case_badpatch(task):
     return out
 
 
+BAD_APPLIED = {
+    'option-words-the-parser-rejects': b'p3 -R -R\n',
+    'unknown-name-and-option': b'zzz -x\n',
+    'second-line-with-a-bad-strip-count': b'p2\np1 -pX\n',
+    'name-that-is-not-utf8': b'p\xff\n',
+    'unknown-long-option': b'p2 --bogus\n',
+    'is-a-directory': 'DIR',
+}
+
+
+def case_badapplied(task):
+    """.pc/applied-patches is there but cannot be read or understood - and is certainly no prefix of the series"""
+    m0, texts, kind, goal, threads, quiet = task
+    d = wsweep.wdir()
+    root = os.path.join(d, 'ws')
+    files = m0.files()
+    ws.make_ws(root, files, {n: texts[n] for n in NAMES}, list(NAMES))
+    os.makedirs(os.path.join(root, '.pc'))
+    ap = os.path.join(root, '.pc', 'applied-patches')
+    if BAD_APPLIED[kind] == 'DIR':
+        os.mkdir(ap)
+    else:
+        open(ap, 'wb').write(BAD_APPLIED[kind])
+    args = ([goal] if goal else []) + (['-q'] if quiet else []) + ['--backup', 'always']
+    before = ws.snapshot(root, meta=True, skip=())
+    o = ws.run_rq(root, args, threads=threads, trace=os.path.join(d, 'trace'))
+    after = ws.snapshot(root, meta=True, skip=())
+    out = {'evals': 1, 'violations': [], 'outcomes': {'applied-patches:' + kind: 1}, 'nontrivial': 1}
+    tags = wsweep.cls({'applied-patches-unreadable:' + kind, 'threads>1' if threads > 1 else 'threads=1'})
+    w = lambda extra: dict({'kind': 'cli', 'files': {k: [common.b2s(v[0]), v[1]] for k, v in files.items()}, 'patches': {n: common.b2s(texts[n]) for n in NAMES}, 'series': list(NAMES),
+                            'applied_raw': common.b2s(BAD_APPLIED[kind]) if isinstance(BAD_APPLIED[kind], bytes) else 'a directory', 'args': args, 'threads': threads,
+                            'series_desc': '.pc/applied-patches: %s' % kind}, **extra)
+    if o.cls not in ('0', '1'):
+        out['violations'].append((tags, o.cls, w({'expected': 'exit 1', 'observed': o.cls, 'stderr': common.b2s(o.err[-300:])})))
+        return out
+    v, changed = refused_unchanged(o, before, after)
+    for mode in v:
+        out['violations'].append((tags, mode, w({'expected': 'exit 1, a message, nothing changed', 'observed': 'exit %s, stderr %r, changed %r' % (o.cls, common.b2s(o.err[:200]), changed[:5])})))
+    return out
+
+
 def run(tier, seed):
     res = common.Result('model_checking')
     m0 = tq.initial()
@@ -174,6 +215,12 @@ def run(tier, seed):
             r['sample'] = {'prior_applied': tasks2[i][2], 'bad_position': tasks2[i][3], 'kind': tasks2[i][4], 'threads': tasks2[i][5]}
         acc2.add(r)
     acc2.finish('bad_patch_file_sweep')
+    acc3 = wsweep.Acc(res)
+    for r in wsweep.pmap(case_badapplied, [(m0, texts, kind, goal, threads, quiet) for kind in BAD_APPLIED for goal in (None, '-a', '2', 'p2') for threads in (1, 2) for quiet in (True, False)]):
+        acc3.add(r)
+    acc3.finish('unreadable_applied_patches_sweep')
+    res.coverage['unreadable_applied_patches_sweep']['rule'] = ('.pc/applied-patches that is no prefix of the series because it cannot be read or understood at all (%s) x goal x threads x verbosity: '
+                                                               'exit 1, a message, nothing changed') % ', '.join(BAD_APPLIED)
     cov = res.coverage
     cov['rule'] = ('(1) all pairs (series, applied-patches): series = every duplicate-free sequence of 0..3 of the names p1,p2,p3 (+ one with a duplicate, + one with only a comment and a blank line), applied-patches = every sequence of '
                    '0..3 names incl. duplicates (prefix, longer, reordered, edited, duplicated) x goals {none,0,1,2,4,-a,p1,p2,p3,unknown name, and -a combined with an unknown / a known name / a number} (4 goals when the state is inconsistent) x threads {1,2} x '
